@@ -1,159 +1,1834 @@
-// probe (temporary)
+// c15: governance deposits and per-message-type rules, on the REAL fx-core application.
+//
+// Every history builds a fresh deterministic chain (real gov / bank / staking / distribution /
+// erc20 / crosschain keepers), drives the real gov MsgServer (inside cache branches, like a tx)
+// and the real EndBlocker (through FinalizeBlock/Commit), and after every operation
+//   - records what the real stores show (proposals, deposit records, module and account balances,
+//     both queues, tally results, voting end times) for the Coq model to be replayed against
+//     (Cases_C15.v, model.M_Gov evaluated by coqc), and
+//   - evaluates the property itself with plain big.Int arithmetic (monitor), independently of the model.
 package main
 
 import (
+	"encoding/json"
+	"errors"
 	"fmt"
+	"math/big"
+	"os"
+	"sort"
+	"strings"
 	"time"
 
+	"cosmossdk.io/collections"
 	sdkmath "cosmossdk.io/math"
 	sdk "github.com/cosmos/cosmos-sdk/types"
+	sdkerrors "github.com/cosmos/cosmos-sdk/types/errors"
+	authtypes "github.com/cosmos/cosmos-sdk/x/auth/types"
 	banktypes "github.com/cosmos/cosmos-sdk/x/bank/types"
 	distrtypes "github.com/cosmos/cosmos-sdk/x/distribution/types"
 	govtypes "github.com/cosmos/cosmos-sdk/x/gov/types"
 	govv1 "github.com/cosmos/cosmos-sdk/x/gov/types/v1"
 	govv1beta1 "github.com/cosmos/cosmos-sdk/x/gov/types/v1beta1"
-	authtypes "github.com/cosmos/cosmos-sdk/x/auth/types"
+	minttypes "github.com/cosmos/cosmos-sdk/x/mint/types"
+	stakingtypes "github.com/cosmos/cosmos-sdk/x/staking/types"
 
-	fxtypes "github.com/functionx/fx-core/v8/types"
+	crosschaintypes "github.com/functionx/fx-core/v8/x/crosschain/types"
 	erc20types "github.com/functionx/fx-core/v8/x/erc20/types"
 	govkeeper "github.com/functionx/fx-core/v8/x/gov/keeper"
+	fxgovtypes "github.com/functionx/fx-core/v8/x/gov/types"
 
 	"fxverif/lib"
 )
 
-func fxc(n int64) sdk.Coins { return sdk.NewCoins(lib.FX(n)) }
+const (
+	tyNone    = 0
+	tyEGF     = 1
+	tySend    = 2
+	tyXParams = 3
+	tyToggle  = 4
+	tyText    = 5
+	tyAny     = 99
+)
 
-func main() {
-	c := lib.NewChain(1, 3, nil)
-	fmt.Println("nextblock:", c.NextBlock())
-	ms := govkeeper.NewMsgServerImpl(c.App.GovKeeper)
-	gov := lib.GovAuthority()
-	govAddr := authtypes.NewModuleAddress(govtypes.ModuleName)
-	params, _ := c.App.GovKeeper.Params.Get(c.Ctx)
-	fmt.Printf("params: %+v\n", params)
-	fmt.Println("denom", fxtypes.DefaultDenom, "ctx time", c.Ctx.BlockTime(), "chain time", c.Time)
-	{
-		it, err := c.App.GovKeeper.CustomerParams.Iterate(c.Ctx, nil)
-		fmt.Println("iter err", err)
-		for ; it.Valid(); it.Next() {
-			kv, _ := it.KeyValue()
-			fmt.Println("custom:", kv.Key, kv.Value)
-		}
-		it.Close()
+var typeURL = map[int]string{
+	tyEGF:     sdk.MsgTypeURL(&distrtypes.MsgCommunityPoolSpend{}),
+	tySend:    sdk.MsgTypeURL(&banktypes.MsgSend{}),
+	tyXParams: sdk.MsgTypeURL(&crosschaintypes.MsgUpdateParams{}),
+	tyToggle:  sdk.MsgTypeURL(&erc20types.MsgToggleTokenConversion{}),
+	tyText:    sdk.MsgTypeURL(&govv1.MsgExecLegacyContent{}),
+	tyAny:     "/google.protobuf.Any",
+}
+
+var e18 = new(big.Int).Exp(big.NewInt(10), big.NewInt(18), nil)
+
+func fxAmt(n int64) *big.Int { return new(big.Int).Mul(big.NewInt(n), e18) }
+
+const denomFX = "FX"
+
+// ---------------------------------------------------------------- model-side descriptions
+
+type mMsg struct {
+	Type  int
+	Spend [][2]string // denom id, amount (EGF)
+	Act   string      // Coq action term
+}
+
+type propInfo struct {
+	ID        uint64
+	Kind      string
+	Types     []int
+	URLs      []string
+	Expedited bool
+	ReqFX     *big.Int // requested community-pool spend in the deposit denomination
+	AllEGF    bool
+	HasFail   bool // a message that must fail on execution
+	OkBefore  bool // ... preceded by messages that succeed
+	Rcpt      []sdk.AccAddress
+	GovSend   *big.Int // what a passed proposal sends out of the module account
+	sendTo    int64
+	Deposits  map[int64]*big.Int
+	Activated bool
+	Closed    bool
+	Proposer  int64
+}
+
+// ---------------------------------------------------------------- history
+
+type hist struct {
+	idx    int
+	class  string
+	seed   int64
+	r      *lib.Rand
+	c      *lib.Chain
+	ms     fxgovtypes.MsgServerPro
+	gov    string
+	govAcc sdk.AccAddress
+	ids    []int64
+	keys   map[int64]lib.Key
+	idOf   map[string]int64
+	params govv1.Params
+	fixed  bool // which key function the code under test implements (see M_Gov.keyfun)
+
+	props    map[uint64]*propInfo
+	steps    []string
+	log      []string
+	initBals string
+	initCust string
+	prev     *obsT
+	token    string
+	nrcpt    int
+	halted   bool
+
+	maxOpenTypes    int
+	govSendExecuted bool
+	customTouched   bool
+	fails           []lib.Failure
+	stats           map[string]int
+}
+
+type pObs struct {
+	ID        uint64
+	Status    int
+	Expedited bool
+	Total     *big.Int
+	Deps      map[int64]*big.Int
+	VStart    int64
+	VEnd      int64
+	Tally     [4]*big.Int
+	URLs      []string
+}
+
+type obsT struct {
+	Res      int
+	Props    []*pObs
+	Gov      *big.Int
+	GovOther sdk.Coins
+	Bals     map[int64]*big.Int
+	Inactive []uint64
+	Active   []uint64
+	Stray    int // deposit records of proposals that are not open
+}
+
+func rel(t time.Time) int64 { return t.Unix() - lib.GenesisTime.Unix() }
+
+func decZ(s string) *big.Int {
+	d, err := sdkmath.LegacyNewDecFromStr(s)
+	lib.Must(err)
+	return d.BigInt()
+}
+
+func (h *hist) logf(f string, a ...interface{}) { h.log = append(h.log, fmt.Sprintf(f, a...)) }
+
+func (h *hist) fail(sig, what string) {
+	if len(h.fails) < 20 {
+		h.fails = append(h.fails, lib.Failure{Kind: "monitor", What: what, Sig: sig,
+			Replay: map[string]interface{}{"seed": h.seed, "history": h.idx, "class": h.class, "ops": append([]string{}, h.log...)}})
 	}
-	accs := []lib.Key{}
-	for i := 0; i < 6; i++ {
-		k := lib.EthKey(1, "acc", i)
-		accs = append(accs, k)
-		c.Mint(k.Acc(), lib.FX(1_000_000))
-	}
-	status := func(id uint64) string {
-		p, err := c.App.GovKeeper.Proposals.Get(c.Ctx, id)
-		if err != nil {
-			return "gone:" + err.Error()
-		}
-		s := fmt.Sprintf("%s total=%s exp=%v", p.Status, sdk.NewCoins(p.TotalDeposit...), p.Expedited)
+}
+
+func (h *hist) observe(res int) *obsT {
+	ctx := h.c.Ctx
+	o := &obsT{Res: res, Bals: map[int64]*big.Int{}}
+	gk := h.c.App.GovKeeper
+	open := map[uint64]bool{}
+	lib.Must(gk.Proposals.Walk(ctx, nil, func(id uint64, p govv1.Proposal) (bool, error) {
+		po := &pObs{ID: id, Status: int(p.Status), Expedited: p.Expedited, Deps: map[int64]*big.Int{}}
+		tot := sdk.NewCoins(p.TotalDeposit...)
+		po.Total = tot.AmountOf(denomFX).BigInt()
 		if p.VotingEndTime != nil {
-			s += fmt.Sprintf(" vstart=%s vend=%s", p.VotingStartTime.Format(time.RFC3339), p.VotingEndTime.Format(time.RFC3339))
+			po.VEnd = rel(*p.VotingEndTime)
+			po.VStart = rel(*p.VotingStartTime)
 		}
-		if p.FinalTallyResult != nil {
-			s += fmt.Sprintf(" tally=%v", p.FinalTallyResult)
+		tr := p.FinalTallyResult
+		for i, s := range []string{tr.YesCount, tr.AbstainCount, tr.NoCount, tr.NoWithVetoCount} {
+			po.Tally[i], _ = new(big.Int).SetString(s, 10)
 		}
-		s += " reason=" + p.FailedReason
-		return s
-	}
-	submit := func(who lib.Key, dep sdk.Coins, expedited bool, msgs ...sdk.Msg) uint64 {
-		var id uint64
-		err := c.Try(func(ctx sdk.Context) error {
-			m, err := govv1.NewMsgSubmitProposal(msgs, dep, who.Acc().String(), "", "t", "s", expedited)
-			if err != nil {
-				return err
-			}
-			r, err := ms.SubmitProposal(ctx, m)
-			if err != nil {
-				return err
-			}
-			id = r.ProposalId
-			return nil
-		})
-		fmt.Println("submit ->", id, err)
-		return id
-	}
-	// 1. EGF dust
-	spend := &distrtypes.MsgCommunityPoolSpend{Authority: gov, Recipient: accs[5].Acc().String(),
-		Amount: sdk.Coins{sdk.NewCoin("FX", sdkmath.NewInt(1000).MulRaw(1e18)), sdk.NewCoin("aaa", sdkmath.NewInt(1))}}
-	id1 := submit(accs[0], fxc(100), false, spend)
-	fmt.Println("EGF dust:", status(id1))
-	{
-		p, _ := c.App.GovKeeper.Proposals.Get(c.Ctx, id1)
-		for _, m := range p.GetMessages() {
-			fmt.Println("MsgTypeURL(any) =", sdk.MsgTypeURL(m), " any.TypeUrl =", m.TypeUrl)
+		for _, m := range p.Messages {
+			po.URLs = append(po.URLs, m.TypeUrl)
 		}
-		min, err := c.App.GovKeeper.GetMinDepositAmountFromProposalMsgs(c.Ctx, params.MinDeposit, p)
-		fmt.Println("min from msgs:", min, err)
-		fmt.Println("custom period:", *c.App.GovKeeper.GetCustomMsgVotingPeriod(c.Ctx, params.VotingPeriod, p), "quorum:", c.App.GovKeeper.GetCustomMsgQuorum(c.Ctx, params.Quorum, p))
+		if p.Status == govv1.StatusDepositPeriod || p.Status == govv1.StatusVotingPeriod {
+			open[id] = true
+		}
+		o.Props = append(o.Props, po)
+		return false, nil
+	}))
+	byID := map[uint64]*pObs{}
+	for _, p := range o.Props {
+		byID[p.ID] = p
 	}
-	spend2 := &distrtypes.MsgCommunityPoolSpend{Authority: gov, Recipient: accs[5].Acc().String(),
-		Amount: sdk.Coins{sdk.NewCoin("FX", sdkmath.NewInt(1000).MulRaw(1e18))}}
-	id1b := submit(accs[0], fxc(100), false, spend2)
-	fmt.Println("EGF plain:", status(id1b))
-	spend3 := &distrtypes.MsgCommunityPoolSpend{Authority: gov, Recipient: accs[5].Acc().String(),
-		Amount: sdk.Coins{sdk.NewCoin("usdt", sdkmath.NewInt(3))}}
-	id1c := submit(accs[0], fxc(100), false, spend3)
-	fmt.Println("EGF foreign dust only:", status(id1c))
+	lib.Must(gk.Deposits.Walk(ctx, nil, func(k collections.Pair[uint64, sdk.AccAddress], d govv1.Deposit) (bool, error) {
+		p := byID[k.K1()]
+		if p == nil || !open[k.K1()] {
+			o.Stray++
+			return false, nil
+		}
+		id, ok := h.idOf[k.K2().String()]
+		if !ok {
+			id = -7
+		}
+		p.Deps[id] = sdk.NewCoins(d.Amount...).AmountOf(denomFX).BigInt()
+		return false, nil
+	}))
+	all := h.c.App.BankKeeper.GetAllBalances(ctx, h.govAcc)
+	o.Gov = all.AmountOf(denomFX).BigInt()
+	for _, c := range all {
+		if c.Denom != denomFX {
+			o.GovOther = append(o.GovOther, c)
+		}
+	}
+	for _, id := range h.ids {
+		o.Bals[id] = h.c.App.BankKeeper.GetBalance(ctx, h.keys[id].Acc(), denomFX).Amount.BigInt()
+	}
+	lib.Must(gk.InactiveProposalsQueue.Walk(ctx, nil, func(k collections.Pair[time.Time, uint64], v uint64) (bool, error) {
+		o.Inactive = append(o.Inactive, v)
+		return false, nil
+	}))
+	lib.Must(gk.ActiveProposalsQueue.Walk(ctx, nil, func(k collections.Pair[time.Time, uint64], v uint64) (bool, error) {
+		o.Active = append(o.Active, v)
+		return false, nil
+	}))
+	return o
+}
 
-	// 2. gov send drain
-	send := &banktypes.MsgSend{FromAddress: gov, ToAddress: accs[4].Acc().String(), Amount: fxc(5000)}
-	id2 := submit(accs[1], fxc(10000), false, send)
-	fmt.Println("send:", status(id2))
-	for i, v := range c.ValKeys {
-		err := c.Try(func(ctx sdk.Context) error {
-			_, err := ms.Vote(ctx, govv1.NewMsgVote(v.Acc(), id2, govv1.OptionYes, ""))
-			return err
-		})
-		fmt.Println("vote", i, err)
-	}
-	fmt.Println(c.NextBlockAfter(time.Hour))
-	content := govv1beta1.NewTextProposal("Test", "description")
-	legacy, _ := govv1.NewLegacyContent(content, gov)
-	id3 := submit(accs[2], fxc(10000), false, legacy)
-	fmt.Println("text:", status(id3))
-	fmt.Println("gov bal", c.App.BankKeeper.GetAllBalances(c.Ctx, govAddr))
-	fmt.Println(c.NextBlockAfter(14*24*time.Hour - 30*time.Minute))
-	fmt.Println("send:", status(id2))
-	fmt.Println("gov bal", c.App.BankKeeper.GetAllBalances(c.Ctx, govAddr))
-	err := c.NextBlockAfter(2 * time.Hour)
-	fmt.Println("after text end: err=", err)
-	fmt.Println("text:", status(id3))
-	fmt.Println("EGF dust:", status(id1))
+func zb(b *big.Int) string { return lib.ZBig(b) }
 
-	// 3. expedited
-	c = lib.NewChain(2, 3, nil)
-	c.NextBlock()
-	ms = govkeeper.NewMsgServerImpl(c.App.GovKeeper)
-	for _, k := range accs {
-		c.Mint(k.Acc(), lib.FX(1_000_000))
+func (o *obsT) coq(ids []int64) string {
+	var ps []string
+	for _, p := range o.Props {
+		var deps []string
+		var ks []int64
+		for k := range p.Deps {
+			ks = append(ks, k)
+		}
+		sort.Slice(ks, func(i, j int) bool { return ks[i] < ks[j] })
+		for _, k := range ks {
+			deps = append(deps, lib.Pair(lib.Z(k), zb(p.Deps[k])))
+		}
+		vend := p.VEnd
+		if p.Status == 1 {
+			vend = 0
+		}
+		ps = append(ps, fmt.Sprintf("mk_pobs %d %d %s %s %s %s [%s; %s; %s; %s]", p.ID, p.Status, lib.Bool(p.Expedited),
+			zb(p.Total), lib.List(deps), lib.Z(vend), zb(p.Tally[0]), zb(p.Tally[1]), zb(p.Tally[2]), zb(p.Tally[3])))
 	}
-	params, _ = c.App.GovKeeper.Params.Get(c.Ctx)
-	params.ExpeditedMinDeposit = fxc(20000)
-	fmt.Println("update params:", c.Try(func(ctx sdk.Context) error {
-		_, err := ms.UpdateParams(ctx, &govv1.MsgUpdateParams{Authority: gov, Params: params})
+	var bs []string
+	for _, id := range ids {
+		bs = append(bs, lib.Pair(lib.Z(id), zb(o.Bals[id])))
+	}
+	u := func(l []uint64) string {
+		s := make([]string, len(l))
+		for i, v := range l {
+			s[i] = fmt.Sprint(v)
+		}
+		return lib.List(s)
+	}
+	return fmt.Sprintf("mk_obs %s %s %s %s %s %s", lib.Z(int64(o.Res)), lib.List(ps), zb(o.Gov), lib.List(bs), u(o.Inactive), u(o.Active))
+}
+
+// ---------------------------------------------------------------- error classes
+
+func errCode(op string, err error) int {
+	if err == nil {
+		return 0
+	}
+	is := func(t error) bool { return errors.Is(err, t) }
+	switch {
+	case strings.HasPrefix(err.Error(), "PANIC"):
+		return 99
+	case is(govtypes.ErrInvalidProposalType):
+		return 6
+	case is(govtypes.ErrMinDepositTooSmall):
+		return 3
+	case is(govtypes.ErrInvalidDepositDenom):
+		return 4
+	case is(sdkerrors.ErrInsufficientFunds):
+		return 5
+	case is(collections.ErrNotFound):
+		return 1
+	case is(govtypes.ErrInactiveProposal):
+		return 2
+	case is(govtypes.ErrInvalidVote):
+		return 8
+	case is(govtypes.ErrInvalidProposer):
+		return 9
+	case is(govtypes.ErrInvalidProposal):
+		return 10
+	case is(govtypes.ErrVotingPeriodEnded):
+		return 11
+	case is(govtypes.ErrInvalidSigner):
+		if op == "custom" {
+			return 12
+		}
+		return 7
+	}
+	return 7
+}
+
+// ---------------------------------------------------------------- setup
+
+func newHist(seed int64, idx int, class string) *hist {
+	h := &hist{idx: idx, class: class, seed: seed, keys: map[int64]lib.Key{}, idOf: map[string]int64{},
+		props: map[uint64]*propInfo{}, stats: map[string]int{}}
+	h.r = lib.NewRand(seed*1_000_003 + int64(idx)*7919 + 13)
+	h.c = lib.NewChain(seed*1000+int64(idx), 3, nil)
+	lib.Must(h.c.NextBlock())
+	c := h.c
+	h.ms = govkeeper.NewMsgServerImpl(c.App.GovKeeper)
+	h.gov = lib.GovAuthority()
+	h.govAcc = authtypes.NewModuleAddress(govtypes.ModuleName)
+	for i, k := range c.ValKeys {
+		h.ids = append(h.ids, int64(i))
+		h.keys[int64(i)] = k
+		h.idOf[k.Acc().String()] = int64(i)
+	}
+	for j := 0; j < 6; j++ {
+		id := int64(10 + j)
+		k := lib.EthKey(c.Seed, "c15user", j)
+		h.ids = append(h.ids, id)
+		h.keys[id] = k
+		h.idOf[k.Acc().String()] = id
+		c.Mint(k.Acc(), lib.FX(int64(200_000+h.r.Intn(5)*100_000)))
+	}
+	// community pool with the deposit denomination and two foreign ones
+	funder := lib.EthKey(c.Seed, "c15funder", 0)
+	pool := sdk.NewCoins(lib.FX(10_000_000), sdk.NewCoin("usdt", sdkmath.NewInt(1_000_000_000_000_000)), sdk.NewCoin("aaa", sdkmath.NewInt(1_000_000)))
+	lib.Must(c.App.BankKeeper.MintCoins(c.Ctx, minttypes.ModuleName, pool))
+	lib.Must(c.App.BankKeeper.SendCoinsFromModuleToAccount(c.Ctx, minttypes.ModuleName, funder.Acc(), pool))
+	lib.Must(c.App.DistrKeeper.FundCommunityPool(c.Ctx, pool, funder.Acc()))
+	// a registered token pair for ToggleTokenConversion
+	pairs := c.App.Erc20Keeper.GetAllTokenPairs(c.Ctx)
+	if len(pairs) > 0 {
+		h.token = pairs[0].Denom
+	} else {
+		md := banktypes.Metadata{Description: "c15 test token", Base: "c15tok", Display: "c15tok", Name: "C15 Token", Symbol: "C15",
+			DenomUnits: []*banktypes.DenomUnit{{Denom: "c15tok", Exponent: 0}, {Denom: "C15", Exponent: 18}}}
+		if _, err := c.App.Erc20Keeper.RegisterNativeCoin(c.Ctx, md); err == nil {
+			h.token = "c15tok"
+		}
+	}
+	// stake: users delegate; one validator is slashed so that tokens != shares
+	for j := 0; j < 4; j++ {
+		id := int64(10 + j)
+		n := 1 + h.r.Intn(3)
+		for k := 0; k < n; k++ {
+			vi := h.r.Intn(3)
+			val, err := c.App.StakingKeeper.GetValidator(c.Ctx, c.ValKeys[vi].Val())
+			lib.Must(err)
+			amt := sdkmath.NewIntFromBigInt(fxAmt(int64(20 + h.r.Intn(300))))
+			if h.r.Chance(30) {
+				amt = amt.AddRaw(int64(h.r.Intn(1_000_000_000)))
+			}
+			_, err = c.App.StakingKeeper.Keeper.Delegate(c.Ctx, h.keys[id].Acc(), amt, stakingtypes.Unbonded, val, true)
+			lib.Must(err)
+		}
+	}
+	if h.r.Chance(70) {
+		vi := h.r.Intn(3)
+		val, err := c.App.StakingKeeper.GetValidator(c.Ctx, c.ValKeys[vi].Val())
+		lib.Must(err)
+		cons, err := val.GetConsAddr()
+		lib.Must(err)
+		frac := sdkmath.LegacyNewDecWithPrec(int64(1+h.r.Intn(30)), 2)
+		power := val.GetConsensusPower(c.App.StakingKeeper.PowerReduction(c.Ctx))
+		_, err = c.App.StakingKeeper.Slash(c.Ctx, cons, c.Ctx.BlockHeight(), power, frac)
+		lib.Must(err)
+	}
+	// governance parameters for this history (through the real authority-guarded handler)
+	p, err := c.App.GovKeeper.Params.Get(c.Ctx)
+	lib.Must(err)
+	mind := []int64{10_000, 5_000, 1_000}[h.r.Intn(3)]
+	if idx < 0 {
+		mind = 10_000
+	}
+	p.MinDeposit = sdk.NewCoins(lib.FX(mind))
+	p.ExpeditedMinDeposit = sdk.NewCoins(lib.FX(mind * int64(2+h.r.Intn(3))))
+	if idx >= 0 {
+		dur := func(d time.Duration) *time.Duration { return &d }
+		p.MaxDepositPeriod = dur([]time.Duration{14 * 24 * time.Hour, 2 * 24 * time.Hour, 6 * time.Hour}[h.r.Intn(3)])
+		p.VotingPeriod = dur([]time.Duration{14 * 24 * time.Hour, 3 * 24 * time.Hour, 12 * time.Hour}[h.r.Intn(3)])
+		p.ExpeditedVotingPeriod = dur([]time.Duration{24 * time.Hour, 2 * time.Hour}[h.r.Intn(2)])
+		if *p.ExpeditedVotingPeriod >= *p.VotingPeriod {
+			p.ExpeditedVotingPeriod = dur(2 * time.Hour)
+		}
+		p.Quorum = []string{"0.4", "0.334", "0.1", "0.75"}[h.r.Intn(4)]
+		p.MinInitialDepositRatio = []string{"0", "0", "0.25", "0.1"}[h.r.Intn(4)]
+		p.MinDepositRatio = []string{"0.01", "0.01", "0", "0.05"}[h.r.Intn(4)]
+		p.ProposalCancelRatio = []string{"0.5", "0", "1", "0.333333333333333333"}[h.r.Intn(4)]
+		switch h.r.Intn(4) {
+		case 0:
+			p.ProposalCancelDest = authtypes.NewModuleAddress(distrtypes.ModuleName).String()
+		case 1:
+			p.ProposalCancelDest = h.keys[15].Acc().String()
+		default:
+			p.ProposalCancelDest = ""
+		}
+		p.BurnProposalDepositPrevote = h.r.Chance(35)
+		p.BurnVoteQuorum = h.r.Chance(35)
+		p.BurnVoteVeto = h.r.Chance(70)
+	}
+	lib.Must(c.Try(func(ctx sdk.Context) error {
+		_, err := h.ms.UpdateParams(ctx, &govv1.MsgUpdateParams{Authority: h.gov, Params: p})
 		return err
 	}))
-	toggle := &erc20types.MsgToggleTokenConversion{Authority: gov, Token: "nosuchtoken"}
-	id4 := submit(accs[0], fxc(20000), true, toggle)
-	fmt.Println("exp toggle:", status(id4))
-	id5 := submit(accs[0], fxc(20000), true, legacy)
-	fmt.Println("exp text:", status(id5))
-	fmt.Println(c.NextBlockAfter(25 * time.Hour))
-	fmt.Println("exp text:", status(id5))
-	fmt.Println("exp toggle:", status(id4))
-	fmt.Println(c.NextBlockAfter(20 * 24 * time.Hour))
-	fmt.Println("exp text:", status(id5))
-	fmt.Println("exp toggle:", status(id4))
-	fmt.Println(c.NextBlock())
-	fmt.Println("exp text:", status(id5))
-	fmt.Println("exp toggle:", status(id4))
-	fmt.Println(c.NextBlock())
-	fmt.Println("exp toggle:", status(id4))
+	h.params = p
+	if class == "plain" {
+		// no per-type configuration at all: the per-type rules coincide with the defaults
+		var keysToDrop []string
+		lib.Must(c.App.GovKeeper.CustomerParams.Walk(c.Ctx, nil, func(k string, _ fxgovtypes.CustomParams) (bool, error) {
+			keysToDrop = append(keysToDrop, k)
+			return false, nil
+		}))
+		for _, k := range keysToDrop {
+			lib.Must(c.Try(func(ctx sdk.Context) error {
+				_, err := h.ms.UpdateCustomParams(ctx, &fxgovtypes.MsgUpdateCustomParams{Authority: h.gov, MsgUrl: k})
+				return err
+			}))
+		}
+	}
+	h.fixed = detectKeyFun(h)
+	lib.Must(c.NextBlock())
+	// initial facts for the model
+	o := h.observe(0)
+	var bs []string
+	for _, id := range h.ids {
+		bs = append(bs, lib.Pair(lib.Z(id), zb(o.Bals[id])))
+	}
+	h.initBals = lib.List(bs)
+	h.initCust = h.customCoq()
+	h.prev = o
+	return h
+}
+
+func urlID(u string) int64 {
+	for id, s := range typeURL {
+		if s == u {
+			return int64(id)
+		}
+	}
+	// other registered custom-parameter keys (erc20 / evm defaults): ids 20..
+	h := int64(0)
+	for _, ch := range u {
+		h = (h*131 + int64(ch)) % 1_000_003
+	}
+	return 1000 + h
+}
+
+func (h *hist) customCoq() string {
+	var items []string
+	lib.Must(h.c.App.GovKeeper.CustomerParams.Walk(h.c.Ctx, nil, func(k string, v fxgovtypes.CustomParams) (bool, error) {
+		items = append(items, fmt.Sprintf("(%d, %s)", urlID(k), cpCoq(v)))
+		return false, nil
+	}))
+	return lib.List(items)
+}
+
+func cpCoq(v fxgovtypes.CustomParams) string {
+	per := int64(0)
+	if v.VotingPeriod != nil {
+		per = int64(v.VotingPeriod.Seconds())
+	}
+	return fmt.Sprintf("mk_cp %s %d %s", zb(decZ(v.DepositRatio)), per, zb(decZ(v.Quorum)))
+}
+
+// detectKeyFun: does the code under test look up per-type parameters by the wrapped message's
+// type URL (true) or by the Any wrapper's own name (false, the tree as it is)?
+func detectKeyFun(h *hist) bool {
+	c := h.c
+	spend := &distrtypes.MsgCommunityPoolSpend{Authority: h.gov, Recipient: h.keys[10].Acc().String(), Amount: sdk.NewCoins(lib.FX(1_000_000_000))}
+	p, err := govv1.NewProposal([]sdk.Msg{spend}, 777, c.Ctx.BlockTime(), c.Ctx.BlockTime(), "", "t", "s", h.keys[10].Acc(), false)
+	lib.Must(err)
+	cctx, _ := c.Ctx.CacheContext()
+	d := 1234 * time.Second
+	lib.Must(c.App.GovKeeper.CustomerParams.Set(cctx, typeURL[tyEGF], fxgovtypes.CustomParams{DepositRatio: "0.5", VotingPeriod: &d, Quorum: "0.123"}))
+	def := 99 * time.Second
+	per := c.App.GovKeeper.GetCustomMsgVotingPeriod(cctx, &def, p)
+	q := c.App.GovKeeper.GetCustomMsgQuorum(cctx, "0.9", p)
+	min, err := c.App.GovKeeper.GetMinDepositAmountFromProposalMsgs(cctx, sdk.NewCoins(lib.FX(1)), p)
+	lib.Must(err)
+	n := 0
+	if *per == d {
+		n++
+	}
+	if q == "0.123" {
+		n++
+	}
+	if min.AmountOf(denomFX).GT(lib.FX(1).Amount) {
+		n++
+	}
+	return n == 3
+}
+
+// ---------------------------------------------------------------- operations on the real app + model terms
+
+func (h *hist) now() int64 { return rel(h.c.Ctx.BlockTime()) }
+
+func (h *hist) record(opCoq string, res int) *obsT {
+	o := h.observe(res)
+	h.steps = append(h.steps, "("+opCoq+", "+o.coq(h.ids)+")")
+	return o
+}
+
+func msgCoq(m mMsg) string {
+	sp := make([]string, len(m.Spend))
+	for i, s := range m.Spend {
+		sp[i] = lib.Pair(s[0], s[1])
+	}
+	return fmt.Sprintf("mk_msg %d %s (%s)", m.Type, lib.List(sp), m.Act)
+}
+
+var denomIDs = map[string]string{"FX": "0", "aaa": "2", "usdt": "3"}
+
+// buildMsgs makes the real messages and their model descriptions for a proposal kind.
+func (h *hist) buildMsgs(kind string, info *propInfo) ([]sdk.Msg, []mMsg) {
+	r := h.r
+	var msgs []sdk.Msg
+	var mm []mMsg
+	tag := int64(r.Intn(1000))
+	newRcpt := func() sdk.AccAddress {
+		h.nrcpt++
+		a := lib.EthKey(h.c.Seed, "c15rcpt", h.nrcpt).Acc()
+		info.Rcpt = append(info.Rcpt, a)
+		return a
+	}
+	text := func() {
+		content := govv1beta1.NewTextProposal(fmt.Sprintf("T%d", tag), "description")
+		m, err := govv1.NewLegacyContent(content, h.gov)
+		lib.Must(err)
+		msgs = append(msgs, m)
+		mm = append(mm, mMsg{Type: tyText, Act: fmt.Sprintf("AOk %d", tag)})
+	}
+	spend := func(coins sdk.Coins, ok bool) {
+		msgs = append(msgs, &distrtypes.MsgCommunityPoolSpend{Authority: h.gov, Recipient: newRcpt().String(), Amount: coins})
+		var sp [][2]string
+		for _, c := range coins {
+			sp = append(sp, [2]string{denomIDs[c.Denom], c.Amount.String()})
+		}
+		act := fmt.Sprintf("AOk %d", tag)
+		if !ok {
+			act = "AFail"
+		}
+		mm = append(mm, mMsg{Type: tyEGF, Spend: sp, Act: act})
+		info.ReqFX.Add(info.ReqFX, coins.AmountOf(denomFX).BigInt())
+	}
+	send := func(to int64, amt *big.Int) {
+		msgs = append(msgs, &banktypes.MsgSend{FromAddress: h.gov, ToAddress: h.keys[to].Acc().String(),
+			Amount: sdk.NewCoins(sdk.NewCoin(denomFX, sdkmath.NewIntFromBigInt(amt)))})
+		mm = append(mm, mMsg{Type: tySend, Act: fmt.Sprintf("AGovSend %d %s", to, zb(amt))})
+	}
+	xparams := func() {
+		p := h.c.App.EthKeeper.GetParams(h.c.Ctx)
+		p.AverageBlockTime = uint64(5000 + r.Intn(3000))
+		msgs = append(msgs, &crosschaintypes.MsgUpdateParams{ChainName: "eth", Authority: h.gov, Params: p})
+		mm = append(mm, mMsg{Type: tyXParams, Act: fmt.Sprintf("AOk %d", tag)})
+	}
+	toggle := func(ok bool) {
+		tok := h.token
+		act := fmt.Sprintf("AOk %d", tag)
+		if !ok || tok == "" {
+			tok = "nosuchtoken"
+			act = "AFail"
+		}
+		msgs = append(msgs, &erc20types.MsgToggleTokenConversion{Authority: h.gov, Token: tok})
+		mm = append(mm, mMsg{Type: tyToggle, Act: act})
+	}
+	okSpendCoins := func() sdk.Coins {
+		switch r.Intn(7) {
+		case 0: // the share equals the default minimum exactly (10% of 10x)
+			return sdk.NewCoins(sdk.NewCoin(denomFX, h.params.MinDeposit[0].Amount.MulRaw(10)))
+		case 1:
+			return sdk.NewCoins(sdk.NewCoin(denomFX, h.params.MinDeposit[0].Amount.MulRaw(10).AddRaw(int64(r.Intn(40))-20)))
+		case 2:
+			return sdk.NewCoins(lib.FX(int64(100_000 + r.Intn(100_000))))
+		case 3: // dust of another denomination next to a large request
+			return sdk.NewCoins(lib.FX(int64(50_000+r.Intn(100_000))), sdk.NewCoin("aaa", sdkmath.NewInt(int64(1+r.Intn(4)))))
+		case 4:
+			return sdk.NewCoins(sdk.NewCoin("usdt", sdkmath.NewInt(int64(1+r.Intn(1_000_000)))))
+		case 5:
+			return sdk.NewCoins(lib.FX(int64(1+r.Intn(5000))), sdk.NewCoin("usdt", sdkmath.NewInt(int64(1_000_000+r.Intn(1_000_000)))))
+		default:
+			return sdk.NewCoins(lib.FX(int64(1 + r.Intn(20_000))))
+		}
+	}
+	switch kind {
+	case "text":
+		text()
+	case "none":
+	case "egf":
+		n := 1 + r.Intn(2)
+		for i := 0; i < n; i++ {
+			spend(okSpendCoins(), true)
+		}
+	case "egf-fail":
+		if r.Chance(60) {
+			spend(okSpendCoins(), true)
+			info.OkBefore = true
+		}
+		spend(sdk.NewCoins(lib.FX(900_000_000_000)), false)
+		info.HasFail = true
+	case "send":
+		// amount the module account can only pay out of other proposals' deposits
+		amt := fxAmt(int64(1 + r.Intn(3000)))
+		info.sendTo = int64(10 + r.Intn(6))
+		send(info.sendTo, amt)
+		info.GovSend = new(big.Int).Set(amt)
+	case "send-fail":
+		if r.Chance(50) && h.class == "govsend" {
+			a := fxAmt(int64(1 + r.Intn(500)))
+			send(int64(10+r.Intn(6)), a)
+			info.OkBefore = true
+		}
+		send(int64(10+r.Intn(6)), fxAmt(800_000_000))
+		info.HasFail = true
+	case "xparams":
+		xparams()
+		if r.Chance(30) {
+			xparams()
+		}
+	case "toggle":
+		toggle(true)
+	case "toggle-fail":
+		if r.Chance(60) && h.token != "" {
+			toggle(true)
+			info.OkBefore = true
+		}
+		toggle(false)
+		info.HasFail = true
+	case "mixed":
+		switch r.Intn(3) {
+		case 0:
+			text()
+			xparams()
+		case 1:
+			toggle(true)
+			toggle(true)
+			spend(okSpendCoins(), true)
+		default:
+			spend(okSpendCoins(), true)
+			send(10, fxAmt(1))
+		}
+	case "badsigner":
+		msgs = append(msgs, &banktypes.MsgSend{FromAddress: h.keys[11].Acc().String(), ToAddress: h.keys[12].Acc().String(), Amount: sdk.NewCoins(lib.FX(1))})
+		mm = append(mm, mMsg{Type: tySend, Act: "AFail"})
+	}
+	for _, m := range mm {
+		info.Types = append(info.Types, m.Type)
+	}
+	for _, m := range msgs {
+		info.URLs = append(info.URLs, sdk.MsgTypeURL(m))
+	}
+	info.AllEGF = len(mm) > 0
+	for _, m := range mm {
+		if m.Type != tyEGF {
+			info.AllEGF = false
+		}
+	}
+	return msgs, mm
+}
+
+func (h *hist) depositCoins(amt *big.Int, badDenom bool) sdk.Coins {
+	cs := sdk.Coins{}
+	if amt.Sign() > 0 {
+		cs = sdk.NewCoins(sdk.NewCoin(denomFX, sdkmath.NewIntFromBigInt(amt)))
+	}
+	if badDenom {
+		cs = cs.Add(sdk.NewCoin("usdt", sdkmath.NewInt(5)))
+	}
+	return cs
+}
+
+func (h *hist) opSubmit(kind string, proposer int64, amt *big.Int, expedited, badDenom bool) {
+	h.opSubmitWith(kind, proposer, amt, expedited, badDenom, func(info *propInfo) ([]sdk.Msg, []mMsg) { return h.buildMsgs(kind, info) })
+}
+
+func (h *hist) opSubmitKind(kind string, proposer int64, amt *big.Int, expedited bool) {
+	h.opSubmit(kind, proposer, amt, expedited, false)
+}
+
+// a community-pool spend of reqFX (deposit denomination) to a fresh recipient
+func (h *hist) opSubmitEGF(proposer int64, reqFX, amt *big.Int) {
+	h.opSubmitWith("egf", proposer, amt, false, false, func(info *propInfo) ([]sdk.Msg, []mMsg) {
+		h.nrcpt++
+		rc := lib.EthKey(h.c.Seed, "c15rcpt", h.nrcpt).Acc()
+		info.Rcpt = append(info.Rcpt, rc)
+		info.ReqFX.Add(info.ReqFX, reqFX)
+		info.Types, info.URLs, info.AllEGF = []int{tyEGF}, []string{typeURL[tyEGF]}, true
+		coins := sdk.NewCoins(sdk.NewCoin(denomFX, sdkmath.NewIntFromBigInt(reqFX)))
+		return []sdk.Msg{&distrtypes.MsgCommunityPoolSpend{Authority: h.gov, Recipient: rc.String(), Amount: coins}},
+			[]mMsg{{Type: tyEGF, Spend: [][2]string{{"0", reqFX.String()}}, Act: "AOk 1"}}
+	})
+}
+
+// a bank send of `amount` from the governance module account to account `to`
+func (h *hist) opSubmitSend(proposer, to int64, amount, amt *big.Int) {
+	h.opSubmitWith("send", proposer, amt, false, false, func(info *propInfo) ([]sdk.Msg, []mMsg) {
+		info.sendTo, info.GovSend = to, new(big.Int).Set(amount)
+		info.Types, info.URLs = []int{tySend}, []string{typeURL[tySend]}
+		return []sdk.Msg{&banktypes.MsgSend{FromAddress: h.gov, ToAddress: h.keys[to].Acc().String(),
+				Amount: sdk.NewCoins(sdk.NewCoin(denomFX, sdkmath.NewIntFromBigInt(amount)))}},
+			[]mMsg{{Type: tySend, Act: fmt.Sprintf("AGovSend %d %s", to, zb(amount))}}
+	})
+}
+
+func (h *hist) opSubmitWith(kind string, proposer int64, amt *big.Int, expedited, badDenom bool, build func(*propInfo) ([]sdk.Msg, []mMsg)) {
+	info := &propInfo{Kind: kind, Expedited: expedited, ReqFX: new(big.Int), Deposits: map[int64]*big.Int{}, Proposer: proposer}
+	msgs, mm := build(info)
+	valid := kind != "badsigner"
+	metadata := ""
+	if kind == "none" {
+		metadata = "c15 metadata-only proposal"
+	}
+	var id uint64
+	err := h.c.Try(func(ctx sdk.Context) error {
+		m, err := govv1.NewMsgSubmitProposal(msgs, h.depositCoins(amt, badDenom), h.keys[proposer].Acc().String(), metadata, "title", "summary", expedited)
+		if err != nil {
+			return err
+		}
+		r, err := h.ms.SubmitProposal(ctx, m)
+		if err != nil {
+			return err
+		}
+		id = r.ProposalId
+		return nil
+	})
+	code := errCode("submit", err)
+	ms := make([]string, len(mm))
+	for i, m := range mm {
+		ms[i] = msgCoq(m)
+	}
+	opc := fmt.Sprintf("OSubmit %d %d %s %s %s %s %s", h.now(), proposer, lib.List(ms), zb(amt), lib.Bool(expedited), lib.Bool(valid), lib.Bool(badDenom))
+	h.logf("submit kind=%s types=%v by=%d deposit=%s expedited=%v badDenom=%v -> id=%d err=%v", kind, info.URLs, proposer, amt, expedited, badDenom, id, err)
+	h.stats["submit:"+kind]++
+	if err == nil {
+		h.stats["submit-accepted"]++
+		info.ID = id
+		info.Deposits[proposer] = new(big.Int).Set(amt)
+		h.props[id] = info
+		// monitor: all messages of one type
+		for _, u := range info.URLs {
+			if !strings.EqualFold(u, info.URLs[0]) {
+				h.fail("C15:mixed-types-accepted", fmt.Sprintf("proposal %d accepted with message types %v", id, info.URLs))
+			}
+		}
+	} else if kind == "mixed" && code != 6 {
+		h.logf("  (mixed proposal refused with code %d)", code)
+	}
+	o := h.record(opc, code)
+	h.monitor(o, "submit", err)
+}
+
+func (h *hist) opDeposit(pid uint64, who int64, amt *big.Int, badDenom bool) {
+	err := h.c.Try(func(ctx sdk.Context) error {
+		_, err := h.ms.Deposit(ctx, &govv1.MsgDeposit{ProposalId: pid, Depositor: h.keys[who].Acc().String(), Amount: h.depositCoins(amt, badDenom)})
+		return err
+	})
+	code := errCode("deposit", err)
+	opc := fmt.Sprintf("ODeposit %d %d %d %s %s", h.now(), pid, who, zb(amt), lib.Bool(badDenom))
+	h.logf("deposit id=%d by=%d amount=%s badDenom=%v -> err=%v", pid, who, amt, badDenom, err)
+	h.stats["deposit"]++
+	if err == nil {
+		if p := h.props[pid]; p != nil {
+			if p.Deposits[who] == nil {
+				p.Deposits[who] = new(big.Int)
+			}
+			p.Deposits[who].Add(p.Deposits[who], amt)
+		}
+	}
+	o := h.record(opc, code)
+	h.monitor(o, "deposit", err)
+}
+
+func (h *hist) opVote(pid uint64, who int64, opts [][2]string, weighted bool) {
+	err := h.c.Try(func(ctx sdk.Context) error {
+		if !weighted {
+			var o int32
+			fmt.Sscan(opts[0][0], &o)
+			_, err := h.ms.Vote(ctx, &govv1.MsgVote{ProposalId: pid, Voter: h.keys[who].Acc().String(), Option: govv1.VoteOption(o)})
+			return err
+		}
+		var wo []*govv1.WeightedVoteOption
+		for _, ow := range opts {
+			var o int32
+			fmt.Sscan(ow[0], &o)
+			w, _ := new(big.Int).SetString(ow[1], 10)
+			wo = append(wo, &govv1.WeightedVoteOption{Option: govv1.VoteOption(o), Weight: sdkmath.LegacyNewDecFromBigIntWithPrec(w, 18).String()})
+		}
+		_, err := h.ms.VoteWeighted(ctx, &govv1.MsgVoteWeighted{ProposalId: pid, Voter: h.keys[who].Acc().String(), Options: wo})
+		return err
+	})
+	code := errCode("vote", err)
+	ps := make([]string, len(opts))
+	for i, ow := range opts {
+		ps[i] = lib.Pair(ow[0], ow[1])
+	}
+	opc := fmt.Sprintf("OVote %d %d %s %s", pid, who, lib.List(ps), lib.Bool(weighted))
+	h.logf("vote id=%d by=%d opts=%v weighted=%v -> err=%v", pid, who, opts, weighted, err)
+	h.stats["vote"]++
+	o := h.record(opc, code)
+	h.monitor(o, "vote", err)
+}
+
+func (h *hist) opCancel(pid uint64, who int64) {
+	err := h.c.Try(func(ctx sdk.Context) error {
+		_, err := h.ms.CancelProposal(ctx, &govv1.MsgCancelProposal{ProposalId: pid, Proposer: h.keys[who].Acc().String()})
+		return err
+	})
+	code := errCode("cancel", err)
+	opc := fmt.Sprintf("OCancel %d %d %d", h.now(), pid, who)
+	h.logf("cancel id=%d by=%d -> err=%v", pid, who, err)
+	h.stats["cancel"]++
+	o := h.record(opc, code)
+	h.monitor(o, "cancel", err)
+}
+
+func (h *hist) opCustom(authorized bool, key int, cp *fxgovtypes.CustomParams) {
+	auth := h.gov
+	if !authorized {
+		auth = h.keys[11].Acc().String()
+	}
+	req := &fxgovtypes.MsgUpdateCustomParams{Authority: auth, MsgUrl: typeURL[key]}
+	opc := fmt.Sprintf("ORemoveCustom %s %d", lib.Bool(authorized), key)
+	if cp != nil {
+		req.CustomParams = *cp
+		opc = fmt.Sprintf("OSetCustom %s %d (%s)", lib.Bool(authorized), key, cpCoq(*cp))
+	}
+	err := h.c.Try(func(ctx sdk.Context) error {
+		_, err := h.ms.UpdateCustomParams(ctx, req)
+		return err
+	})
+	code := errCode("custom", err)
+	h.logf("custom params key=%s set=%v authorized=%v -> err=%v", typeURL[key], cp, authorized, err)
+	h.stats["custom"]++
+	if err == nil {
+		h.customTouched = true
+	}
+	o := h.record(opc, code)
+	h.monitor(o, "custom", err)
+}
+
+func (h *hist) opMint(who int64, amt *big.Int) {
+	h.c.Mint(h.keys[who].Acc(), sdk.NewCoin(denomFX, sdkmath.NewIntFromBigInt(amt)))
+	opc := fmt.Sprintf("OBank %d %s", who, zb(amt))
+	h.logf("bank credit acct=%d amount=%s", who, amt)
+	o := h.record(opc, 0)
+	h.monitor(o, "bank", nil)
+}
+
+func (h *hist) stakingCoq() string {
+	ctx := h.c.Ctx
+	sk := h.c.App.StakingKeeper
+	var vals, dels []string
+	valID := map[string]int64{}
+	lib.Must(sk.IterateBondedValidatorsByPower(ctx, func(_ int64, v stakingtypes.ValidatorI) bool {
+		bz, err := sk.ValidatorAddressCodec().StringToBytes(v.GetOperator())
+		lib.Must(err)
+		id, ok := h.idOf[sdk.AccAddress(bz).String()]
+		if !ok {
+			id = -5
+		}
+		valID[v.GetOperator()] = id
+		vals = append(vals, fmt.Sprintf("(%d, %s, %s)", id, zb(v.GetBondedTokens().BigInt()), zb(v.GetDelegatorShares().BigInt())))
+		return false
+	}))
+	for _, id := range h.ids {
+		ds, err := sk.GetDelegatorDelegations(ctx, h.keys[id].Acc(), 100)
+		lib.Must(err)
+		for _, d := range ds {
+			vid, ok := valID[d.ValidatorAddress]
+			if !ok {
+				vid = -6
+			}
+			dels = append(dels, fmt.Sprintf("(%d, %d, %s)", id, vid, zb(d.Shares.BigInt())))
+		}
+	}
+	tb, err := sk.TotalBondedTokens(ctx)
+	lib.Must(err)
+	return fmt.Sprintf("mk_stk %s %s %s", lib.List(vals), lib.List(dels), zb(tb.BigInt()))
+}
+
+func (h *hist) opEndBlock(dt time.Duration) {
+	stk := h.stakingCoq()
+	before := map[string][]lib.KV{}
+	for _, st := range []string{"erc20", "eth"} {
+		before[st] = h.c.DumpPrefix(h.c.Ctx, st, nil)
+	}
+	custBefore := h.customMap()
+	err := h.c.NextBlockAfter(dt)
+	t := rel(h.c.Time)
+	opc := fmt.Sprintf("OEndBlock %d (%s)", t, stk)
+	h.logf("end block at t=%d (dt=%s) -> err=%v", t, dt, err)
+	h.stats["endblock"]++
+	if err != nil {
+		h.halted = true
+		h.steps = append(h.steps, "("+opc+", "+h.haltObs().coq(h.ids)+")")
+		sig := "C15:endblock-error"
+		if h.govSendExecuted {
+			sig = "C15:gov-account-spend:endblock-halts"
+		}
+		h.fail(sig, fmt.Sprintf("the end blocker returned an error, the block cannot be finalized: %v", err))
+		return
+	}
+	o := h.record(opc, 0)
+	h.monitorEndBlock(o, before, custBefore)
+	h.monitor(o, "endblock", nil)
+}
+
+// after a failed FinalizeBlock the model keeps the previous state; report that state with result -1
+func (h *hist) haltObs() *obsT {
+	o := *h.prev
+	o.Res = -1
+	return &o
+}
+
+// ---------------------------------------------------------------- monitor (property text, independent of the model)
+
+type cpT struct {
+	ratio, quorum *big.Int
+	period        int64
+}
+
+func (h *hist) customMap() map[string]cpT {
+	m := map[string]cpT{}
+	lib.Must(h.c.App.GovKeeper.CustomerParams.Walk(h.c.Ctx, nil, func(k string, v fxgovtypes.CustomParams) (bool, error) {
+		per := int64(0)
+		if v.VotingPeriod != nil {
+			per = int64(v.VotingPeriod.Seconds())
+		}
+		m[k] = cpT{decZ(v.DepositRatio), decZ(v.Quorum), per}
+		return false, nil
+	}))
+	return m
+}
+
+// round half to even of x / 10^18, x >= 0
+func roundDec(x *big.Int) *big.Int {
+	q, r := new(big.Int).QuoRem(x, e18, new(big.Int))
+	half := new(big.Int).Rsh(e18, 1)
+	switch r.Cmp(half) {
+	case 1:
+		q.Add(q, big.NewInt(1))
+	case 0:
+		if q.Bit(0) == 1 {
+			q.Add(q, big.NewInt(1))
+		}
+	}
+	return q
+}
+
+func (h *hist) monitor(o *obsT, op string, opErr error) {
+	prev := h.prev
+	// (1) the module account holds exactly the deposits of open proposals
+	sum := new(big.Int)
+	for _, p := range o.Props {
+		ps := new(big.Int)
+		for _, a := range p.Deps {
+			ps.Add(ps, a)
+		}
+		open := p.Status == 1 || p.Status == 2
+		if open && ps.Cmp(p.Total) != 0 {
+			h.fail("C15:total-vs-records", fmt.Sprintf("proposal %d: TotalDeposit %s but its deposit records sum to %s", p.ID, p.Total, ps))
+		}
+		sum.Add(sum, ps)
+	}
+	if o.Stray > 0 {
+		h.fail("C15:stray-deposit-records", fmt.Sprintf("%d deposit records belong to proposals that are not open", o.Stray))
+	}
+	if o.Gov.Cmp(sum) != 0 || len(o.GovOther) > 0 {
+		sig := "C15:conservation"
+		if h.govSendExecuted {
+			sig = "C15:gov-account-spend:conservation"
+		}
+		h.fail(sig, fmt.Sprintf("governance module account holds %s FX (+%s) but open proposals' deposits sum to %s", o.Gov, o.GovOther, sum))
+	}
+	// (2) activation only at or above the applicable minimum; voting period as configured for the type
+	cust := h.customMap()
+	prevBy := map[uint64]*pObs{}
+	for _, p := range prev.Props {
+		prevBy[p.ID] = p
+	}
+	for _, p := range o.Props {
+		info := h.props[p.ID]
+		if info == nil {
+			continue
+		}
+		pp := prevBy[p.ID]
+		activatedNow := p.Status == 2 && (pp == nil || pp.Status == 1)
+		if activatedNow {
+			info.Activated = true
+			h.stats["activated"]++
+			min := h.params.MinDeposit[0].Amount.BigInt()
+			if p.Expedited {
+				min = h.params.ExpeditedMinDeposit[0].Amount.BigInt()
+			}
+			if p.Total.Cmp(min) < 0 {
+				h.fail("C15:activation-below-minimum", fmt.Sprintf("proposal %d entered voting with %s < minimum %s", p.ID, p.Total, min))
+			}
+			if info.AllEGF {
+				if cp, ok := cust[typeURL[tyEGF]]; ok && cp.ratio.Sign() > 0 {
+					share := roundDec(new(big.Int).Mul(info.ReqFX, cp.ratio))
+					if share.Cmp(min) > 0 && p.Total.Cmp(share) < 0 {
+						h.fail("C15:custom-params-ignored:egf-share", fmt.Sprintf("community-pool spend proposal %d (requests %s) entered voting with %s < configured share %s", p.ID, info.ReqFX, p.Total, share))
+					}
+				}
+			}
+			want := int64(h.params.VotingPeriod.Seconds())
+			if p.Expedited {
+				want = int64(h.params.ExpeditedVotingPeriod.Seconds())
+			}
+			if len(info.URLs) > 0 {
+				if cp, ok := cust[info.URLs[0]]; ok {
+					want = cp.period
+				}
+			}
+			if got := p.VEnd - p.VStart; got != want {
+				sig := "C15:voting-period"
+				if len(info.URLs) > 0 {
+					if _, ok := cust[info.URLs[0]]; ok {
+						sig = "C15:custom-params-ignored:period"
+					}
+				}
+				if _, ok := cust[typeURL[tyAny]]; ok {
+					sig = "C15:custom-params-ignored:period-any-key"
+				}
+				h.fail(sig, fmt.Sprintf("proposal %d (%v) got voting period %ds, configured for its type: %ds", p.ID, info.URLs, got, want))
+			}
+		}
+		if p.Status == 1 && pp != nil && pp.Status != 1 {
+			h.fail("C15:status-regressed", fmt.Sprintf("proposal %d went back to the deposit period", p.ID))
+		}
+	}
+	openTypes := map[string]bool{}
+	for _, p := range o.Props {
+		if p.Status == 1 || p.Status == 2 {
+			if len(p.URLs) > 0 {
+				openTypes[p.URLs[0]] = true
+			} else {
+				openTypes[""] = true
+			}
+		}
+	}
+	if len(openTypes) > h.maxOpenTypes {
+		h.maxOpenTypes = len(openTypes)
+	}
+	// (3) payout exactly once, in the closing step (cancel; end-block closings are checked in monitorEndBlock)
+	if op != "endblock" {
+		h.checkPayout(prev, o, op)
+	}
+	h.prev = o
+}
+
+// checkPayout: every proposal that was open before and is not open now must have paid each deposit
+// record exactly once (refund xor burn; for a cancellation: refund of the uncharged part), and
+// nobody else's balance may have moved because of it.
+func (h *hist) checkPayout(prev, o *obsT, op string) {
+	nowBy := map[uint64]*pObs{}
+	for _, p := range o.Props {
+		nowBy[p.ID] = p
+	}
+	var closing []*pObs
+	for _, p := range prev.Props {
+		if p.Status != 1 && p.Status != 2 {
+			continue
+		}
+		q := nowBy[p.ID]
+		if q == nil || (q.Status != 1 && q.Status != 2) {
+			closing = append(closing, p)
+		}
+	}
+	delta := map[int64]*big.Int{}
+	for _, id := range h.ids {
+		delta[id] = new(big.Int).Sub(o.Bals[id], prev.Bals[id])
+	}
+	if len(closing) == 0 {
+		return
+	}
+	for _, p := range closing {
+		info := h.props[p.ID]
+		if info != nil {
+			info.Closed = true
+			// the harness's own record of who deposited what must match the stored records being paid
+			for who, a := range info.Deposits {
+				if a.Sign() == 0 {
+					continue
+				}
+				if p.Deps[who] == nil || p.Deps[who].Cmp(a) != 0 {
+					h.fail("C15:deposit-record-lost", fmt.Sprintf("proposal %d: account %d deposited %s, record shows %v", p.ID, who, a, p.Deps[who]))
+				}
+			}
+		}
+		h.stats["closed"]++
+	}
+	if op == "cancel" {
+		p := closing[0]
+		rate := decZ(h.params.ProposalCancelRatio)
+		charges := new(big.Int)
+		want := map[int64]*big.Int{}
+		for who, a := range p.Deps {
+			ch := new(big.Int).Quo(new(big.Int).Mul(a, rate), e18)
+			charges.Add(charges, ch)
+			want[who] = new(big.Int).Sub(a, ch)
+		}
+		if id, ok := h.idOf[h.params.ProposalCancelDest]; ok && h.params.ProposalCancelDest != "" {
+			if want[id] == nil {
+				want[id] = new(big.Int)
+			}
+			want[id].Add(want[id], charges)
+		}
+		for _, id := range h.ids {
+			w := want[id]
+			if w == nil {
+				w = new(big.Int)
+			}
+			if delta[id].Cmp(w) != 0 {
+				h.fail("C15:payout:cancel", fmt.Sprintf("cancelled proposal %d: account %d balance moved by %s, expected %s", p.ID, id, delta[id], w))
+			}
+		}
+		return
+	}
+}
+
+func (h *hist) monitorEndBlock(o *obsT, before map[string][]lib.KV, custBefore map[string]cpT) {
+	prev := h.prev
+	nowBy := map[uint64]*pObs{}
+	for _, p := range o.Props {
+		nowBy[p.ID] = p
+	}
+	var closing []*pObs
+	for _, p := range prev.Props {
+		if p.Status != 1 && p.Status != 2 {
+			continue
+		}
+		q := nowBy[p.ID]
+		if q == nil || (q.Status != 1 && q.Status != 2) {
+			closing = append(closing, p)
+		}
+	}
+	delta := map[int64]*big.Int{}
+	for _, id := range h.ids {
+		delta[id] = new(big.Int).Sub(o.Bals[id], prev.Bals[id])
+	}
+	// receipts of executed governance sends
+	passedKinds := map[string]int{}
+	for _, p := range closing {
+		q := nowBy[p.ID]
+		info := h.props[p.ID]
+		if info == nil {
+			continue
+		}
+		info.Closed = true
+		h.stats["closed"]++
+		if q != nil {
+			h.stats[fmt.Sprintf("final-status=%d", q.Status)]++
+		} else {
+			h.stats["final-status=dropped"]++
+		}
+		for who, a := range info.Deposits {
+			if a.Sign() == 0 {
+				continue
+			}
+			if p.Deps[who] == nil || p.Deps[who].Cmp(a) != 0 {
+				h.fail("C15:deposit-record-lost", fmt.Sprintf("proposal %d: account %d deposited %s, record shows %v", p.ID, who, a, p.Deps[who]))
+			}
+		}
+		if q != nil && q.Status == 3 {
+			passedKinds[info.Kind]++
+			if info.GovSend != nil {
+				h.govSendExecuted = true
+			}
+		}
+	}
+	// payout: some assignment refund/burn per closing proposal explains every tracked balance
+	if len(closing) > 0 && len(closing) <= 10 {
+		okAssign := false
+		for mask := 0; mask < 1<<len(closing) && !okAssign; mask++ {
+			want := map[int64]*big.Int{}
+			for _, id := range h.ids {
+				want[id] = new(big.Int)
+			}
+			for i, p := range closing {
+				if mask&(1<<i) != 0 {
+					for who, a := range p.Deps {
+						if want[who] != nil {
+							want[who].Add(want[who], a)
+						}
+					}
+				}
+			}
+			// an executed send from the module account credits its recipient
+			for _, p := range closing {
+				q := nowBy[p.ID]
+				info := h.props[p.ID]
+				if info != nil && q != nil && q.Status == 3 && info.Kind == "send" {
+					to := info.sendTo
+					if want[to] != nil {
+						want[to].Add(want[to], info.GovSend)
+					}
+				}
+			}
+			good := true
+			for _, id := range h.ids {
+				if delta[id].Cmp(want[id]) != 0 {
+					good = false
+					break
+				}
+			}
+			okAssign = good
+		}
+		if !okAssign {
+			h.fail("C15:payout:endblock", fmt.Sprintf("closing proposals %v: account balance changes %v are not 'each deposit refunded or burned exactly once'", ids(closing), delta))
+		}
+	} else if len(closing) == 0 {
+		for _, id := range h.ids {
+			if delta[id].Sign() != 0 {
+				h.fail("C15:payout:unexpected", fmt.Sprintf("no proposal closed but account %d moved by %s", id, delta[id]))
+			}
+		}
+	}
+	// tally: quorum configured for the type at this moment
+	for _, p := range prev.Props {
+		if p.Status != 2 {
+			continue
+		}
+		q := nowBy[p.ID]
+		info := h.props[p.ID]
+		if q == nil || info == nil {
+			continue
+		}
+		tallied := q.Status != 2 || (p.Expedited && !q.Expedited)
+		if !tallied {
+			continue
+		}
+		h.stats["tallied"]++
+		h.checkQuorum(p, q, info, custBefore)
+		if p.Expedited && !q.Expedited && q.Status == 2 {
+			h.stats["expedited-converted"]++
+			want := int64(h.params.VotingPeriod.Seconds())
+			if len(info.URLs) > 0 {
+				if cp, ok := custBefore[info.URLs[0]]; ok {
+					want = cp.period
+				}
+			}
+			if got := q.VEnd - q.VStart; got != want {
+				h.fail("C15:custom-params-ignored:period-converted", fmt.Sprintf("converted expedited proposal %d got voting period %ds, configured for its type: %ds", p.ID, got, want))
+			}
+		}
+	}
+	// a passed proposal whose message fails: nothing of it may survive
+	for _, p := range closing {
+		q := nowBy[p.ID]
+		info := h.props[p.ID]
+		if q == nil || info == nil {
+			continue
+		}
+		if info.HasFail && q.Status == 3 {
+			h.fail("C15:failing-message-passed", fmt.Sprintf("proposal %d has a message that cannot succeed but ended as passed", p.ID))
+		}
+		if q.Status != 5 {
+			continue
+		}
+		h.stats["failed-on-execution"]++
+		if info.OkBefore {
+			h.stats["failed-after-ok-message"]++
+		}
+		for _, rc := range info.Rcpt {
+			if b := h.c.App.BankKeeper.GetAllBalances(h.c.Ctx, rc); !b.IsZero() {
+				h.fail("C15:partial-execution", fmt.Sprintf("failed proposal %d: spend recipient holds %s", p.ID, b))
+			}
+		}
+		switch info.Kind {
+		case "toggle-fail":
+			if passedKinds["toggle"] == 0 {
+				if d := diffKV(before["erc20"], h.c.DumpPrefix(h.c.Ctx, "erc20", nil)); d != "" {
+					h.fail("C15:partial-execution", fmt.Sprintf("failed proposal %d left writes in the erc20 store: %s", p.ID, d))
+				}
+			}
+		}
+	}
+	if passedKinds["xparams"] == 0 {
+		if d := diffKV(before["eth"], h.c.DumpPrefix(h.c.Ctx, "eth", nil)); d != "" {
+			// only meaningful when nothing legitimately wrote there; crosschain end blocker is idle without oracles
+			h.fail("C15:unexpected-store-write", "eth store changed in a block without a passed crosschain proposal: "+d)
+		}
+	}
+	if passedKinds["toggle"] == 0 {
+		if d := diffKV(before["erc20"], h.c.DumpPrefix(h.c.Ctx, "erc20", nil)); d != "" {
+			h.fail("C15:partial-execution", "erc20 store changed in a block without a passed erc20 proposal: "+d)
+		}
+	}
+}
+
+func ids(ps []*pObs) []uint64 {
+	var r []uint64
+	for _, p := range ps {
+		r = append(r, p.ID)
+	}
+	return r
+}
+
+func diffKV(a, b []lib.KV) string {
+	am := map[string]string{}
+	for _, kv := range a {
+		am[string(kv.K)] = string(kv.V)
+	}
+	n := 0
+	first := ""
+	for _, kv := range b {
+		if v, ok := am[string(kv.K)]; !ok || v != string(kv.V) {
+			n++
+			if first == "" {
+				first = fmt.Sprintf("%x", kv.K)
+			}
+		}
+		delete(am, string(kv.K))
+	}
+	for k := range am {
+		n++
+		if first == "" {
+			first = fmt.Sprintf("-%x", k)
+		}
+	}
+	if n == 0 {
+		return ""
+	}
+	return fmt.Sprintf("%d keys differ, e.g. %s", n, first)
+}
+
+// checkQuorum recomputes the verdict from the stored tally with the quorum configured for the
+// proposal's message type and compares it with what happened.
+func (h *hist) checkQuorum(p, q *pObs, info *propInfo, cust map[string]cpT) {
+	tb, err := h.c.App.StakingKeeper.TotalBondedTokens(h.c.Ctx)
+	lib.Must(err)
+	if tb.IsZero() {
+		return
+	}
+	yes, abst, no, veto := q.Tally[0], q.Tally[1], q.Tally[2], q.Tally[3]
+	total := new(big.Int).Add(new(big.Int).Add(yes, abst), new(big.Int).Add(no, veto))
+	verdict := func(quorum *big.Int) (pass bool, near bool) {
+		// percent = total / bonded  (the stored counts are truncated: allow 8 base units of slack)
+		lhs := new(big.Int).Mul(total, e18)
+		rhs := new(big.Int).Mul(quorum, tb.BigInt())
+		diff := new(big.Int).Sub(lhs, rhs)
+		slack := new(big.Int).Mul(big.NewInt(16), e18)
+		if new(big.Int).Abs(diff).Cmp(slack) <= 0 {
+			near = true
+		}
+		if diff.Sign() < 0 {
+			return false, near
+		}
+		nonAbst := new(big.Int).Sub(total, abst)
+		if nonAbst.Sign() == 0 {
+			return false, near
+		}
+		vt := decZ(h.params.VetoThreshold)
+		if new(big.Int).Mul(veto, e18).Cmp(new(big.Int).Mul(vt, total)) > 0 {
+			return false, near
+		}
+		th := decZ(h.params.Threshold)
+		if p.Expedited {
+			th = decZ(h.params.ExpeditedThreshold)
+		}
+		l := new(big.Int).Mul(yes, e18)
+		r := new(big.Int).Mul(th, nonAbst)
+		d2 := new(big.Int).Sub(l, r)
+		if new(big.Int).Abs(d2).Cmp(slack) <= 0 {
+			near = true
+		}
+		return d2.Sign() > 0, near
+	}
+	defQ := decZ(h.params.Quorum)
+	typeQ := defQ
+	configured := false
+	if len(info.URLs) > 0 {
+		if cp, ok := cust[info.URLs[0]]; ok {
+			typeQ = cp.quorum
+			configured = true
+		}
+	}
+	passed := q.Status == 3 || q.Status == 5
+	want, near := verdict(typeQ)
+	if near {
+		return
+	}
+	if want != passed {
+		sig := "C15:tally-verdict"
+		if alt, _ := verdict(defQ); configured && alt == passed {
+			sig = "C15:custom-params-ignored:quorum"
+		} else if cp, ok := cust[typeURL[tyAny]]; ok {
+			if alt, _ := verdict(cp.quorum); alt == passed {
+				sig = "C15:custom-params-ignored:quorum-any-key"
+			}
+		}
+		h.fail(sig, fmt.Sprintf("proposal %d (%v): tally yes=%s abstain=%s no=%s veto=%s of %s bonded; with the quorum configured for its type (%s) it should pass=%v, it ended with status %d",
+			p.ID, info.URLs, yes, abst, no, veto, tb, typeQ, want, q.Status))
+	}
+}
+
+// ---------------------------------------------------------------- generator
+
+func (h *hist) openIDs(status int) []uint64 {
+	var r []uint64
+	for _, p := range h.prev.Props {
+		if status == 0 && (p.Status == 1 || p.Status == 2) || p.Status == status {
+			r = append(r, p.ID)
+		}
+	}
+	return r
+}
+
+func (h *hist) propObs(id uint64) *pObs {
+	for _, p := range h.prev.Props {
+		if p.ID == id {
+			return p
+		}
+	}
+	return nil
+}
+
+func (h *hist) pickKind() string {
+	r := h.r
+	kinds := []string{"text", "text", "egf", "egf", "xparams", "toggle", "toggle-fail", "egf-fail", "send-fail", "none", "mixed", "badsigner"}
+	if h.class == "govsend" {
+		kinds = append(kinds, "send", "send", "send", "send")
+	}
+	return kinds[r.Intn(len(kinds))]
+}
+
+func (h *hist) minFor(expedited bool) *big.Int {
+	if expedited {
+		return h.params.ExpeditedMinDeposit[0].Amount.BigInt()
+	}
+	return h.params.MinDeposit[0].Amount.BigInt()
+}
+
+func (h *hist) genSubmit() {
+	r := h.r
+	kind := h.pickKind()
+	expedited := r.Chance(18)
+	proposer := int64(10 + r.Intn(6))
+	min := h.minFor(expedited)
+	var amt *big.Int
+	switch r.Intn(8) {
+	case 0:
+		amt = new(big.Int).Set(min) // activates at once
+	case 1:
+		amt = new(big.Int).Sub(min, big.NewInt(1))
+	case 2:
+		amt = new(big.Int)
+	case 3: // around the per-deposit threshold
+		th := new(big.Int).Quo(new(big.Int).Mul(min, decZ(h.params.MinDepositRatio)), e18)
+		amt = th.Add(th, big.NewInt(int64(r.Intn(3)-1)))
+	case 4: // around the initial-deposit requirement
+		th := roundDec(new(big.Int).Mul(min, decZ(h.params.MinInitialDepositRatio)))
+		amt = th.Add(th, big.NewInt(int64(r.Intn(3)-1)))
+	case 5:
+		amt = new(big.Int).Mul(min, big.NewInt(2))
+	default:
+		amt = new(big.Int).Quo(new(big.Int).Mul(min, big.NewInt(int64(1+r.Intn(9)))), big.NewInt(10))
+	}
+	if amt.Sign() < 0 {
+		amt = new(big.Int)
+	}
+	h.opSubmit(kind, proposer, amt, expedited, r.Chance(4))
+}
+
+func (h *hist) genDeposit() {
+	r := h.r
+	open := h.openIDs(0)
+	var pid uint64
+	switch {
+	case len(open) > 0 && !r.Chance(8):
+		pid = open[r.Intn(len(open))]
+	case len(h.prev.Props) > 0 && r.Chance(50):
+		pid = h.prev.Props[r.Intn(len(h.prev.Props))].ID // possibly finished
+	default:
+		pid = uint64(1 + r.Intn(12)) // possibly unknown / removed
+	}
+	who := int64(10 + r.Intn(6))
+	if r.Chance(15) {
+		who = int64(r.Intn(3))
+	}
+	p := h.propObs(pid)
+	min := h.minFor(p != nil && p.Expedited)
+	var amt *big.Int
+	missing := new(big.Int).Set(min)
+	if p != nil {
+		missing.Sub(min, p.Total)
+	}
+	if info := h.props[pid]; info != nil && info.AllEGF && r.Chance(50) {
+		// aim at the configured share of the requested amount instead
+		if cp, ok := h.customMap()[typeURL[tyEGF]]; ok {
+			share := roundDec(new(big.Int).Mul(info.ReqFX, cp.ratio))
+			if p != nil && share.Cmp(min) > 0 {
+				missing.Sub(share, p.Total)
+			}
+		}
+	}
+	switch r.Intn(8) {
+	case 0, 1:
+		amt = new(big.Int).Set(missing) // exactly reaches the minimum
+	case 2:
+		amt = new(big.Int).Sub(missing, big.NewInt(1)) // one below
+	case 3:
+		th := new(big.Int).Quo(new(big.Int).Mul(min, decZ(h.params.MinDepositRatio)), e18)
+		amt = th.Add(th, big.NewInt(int64(r.Intn(3)-1)))
+	case 4:
+		amt = new(big.Int).Add(missing, fxAmt(int64(r.Intn(500))))
+	case 5:
+		amt = fxAmt(100_000_000) // more than anybody has
+	default:
+		amt = new(big.Int).Quo(new(big.Int).Mul(min, big.NewInt(int64(1+r.Intn(6)))), big.NewInt(10))
+	}
+	if amt.Sign() <= 0 {
+		if r.Chance(70) {
+			amt = new(big.Int).Quo(min, big.NewInt(5))
+		} else {
+			amt = new(big.Int)
+		}
+	}
+	h.opDeposit(pid, who, amt, r.Chance(4))
+}
+
+func (h *hist) genVote() {
+	r := h.r
+	voting := h.openIDs(2)
+	var pid uint64
+	if len(voting) > 0 && !r.Chance(6) {
+		pid = voting[r.Intn(len(voting))]
+	} else {
+		pid = uint64(1 + r.Intn(10))
+	}
+	who := int64(r.Intn(3))
+	if r.Chance(45) {
+		who = int64(10 + r.Intn(6))
+	}
+	if !r.Chance(30) {
+		opt := []int{1, 1, 1, 1, 3, 2, 4}[r.Intn(7)]
+		if r.Chance(3) {
+			opt = 0
+		}
+		h.opVote(pid, who, [][2]string{{fmt.Sprint(opt), e18.String()}}, false)
+		return
+	}
+	// weighted
+	n := 2 + r.Intn(3)
+	perm := r.Perm(4)
+	var opts [][2]string
+	left := new(big.Int).Set(e18)
+	for i := 0; i < n; i++ {
+		var w *big.Int
+		if i == n-1 {
+			w = new(big.Int).Set(left)
+		} else {
+			w = new(big.Int).Quo(new(big.Int).Mul(left, big.NewInt(int64(1+r.Intn(8)))), big.NewInt(10))
+			if r.Chance(30) {
+				w.Add(w, big.NewInt(int64(r.Intn(1000))))
+			}
+			left.Sub(left, w)
+		}
+		opts = append(opts, [2]string{fmt.Sprint(perm[i] + 1), w.String()})
+	}
+	switch r.Intn(12) {
+	case 0: // weights do not add up
+		w, _ := new(big.Int).SetString(opts[0][1], 10)
+		opts[0][1] = w.Add(w, big.NewInt(1)).String()
+	case 1: // duplicate option
+		opts[1][0] = opts[0][0]
+	}
+	h.opVote(pid, who, opts, true)
+}
+
+func (h *hist) genCancel() {
+	r := h.r
+	open := h.openIDs(0)
+	if len(open) == 0 {
+		h.opCancel(uint64(1+r.Intn(5)), int64(10+r.Intn(6)))
+		return
+	}
+	pid := open[r.Intn(len(open))]
+	who := int64(10 + r.Intn(6))
+	if info := h.props[pid]; info != nil && !r.Chance(20) {
+		who = info.Proposer
+	}
+	h.opCancel(pid, who)
+}
+
+func (h *hist) genCustom() {
+	r := h.r
+	key := []int{tyEGF, tyEGF, tyToggle, tyText, tySend, tyXParams, tyAny}[r.Intn(7)]
+	if h.class == "plain" {
+		// keep per-type configuration away from the types in use: only keys nobody's proposal has
+		key = tyAny
+		if r.Chance(80) {
+			return
+		}
+	}
+	if r.Chance(20) {
+		h.opCustom(!r.Chance(15), key, nil)
+		return
+	}
+	d := []time.Duration{time.Hour, 6 * time.Hour, 24 * time.Hour, 5 * 24 * time.Hour, 14 * 24 * time.Hour, 20 * 24 * time.Hour}[r.Intn(6)]
+	cp := &fxgovtypes.CustomParams{
+		DepositRatio: []string{"0", "0.1", "0.1", "0.5", "0.000001", "1"}[r.Intn(6)],
+		VotingPeriod: &d,
+		Quorum:       []string{"0", "0.1", "0.25", "0.4", "0.9", "1"}[r.Intn(6)],
+	}
+	if r.Chance(6) {
+		cp.Quorum = "1.5"
+	}
+	h.opCustom(!r.Chance(12), key, cp)
+}
+
+func (h *hist) genEndBlock() {
+	r := h.r
+	var dt time.Duration
+	// often: exactly to the next queue deadline, or one second short of it
+	var next int64 = -1
+	for _, p := range h.prev.Props {
+		var end int64 = -1
+		if p.Status == 2 {
+			end = p.VEnd
+		}
+		if end >= 0 && (next < 0 || end < next) {
+			next = end
+		}
+	}
+	nowT := rel(h.c.Time)
+	switch {
+	case next > nowT+10 && r.Chance(45):
+		dt = time.Duration(next-nowT) * time.Second
+		if r.Chance(25) {
+			dt -= time.Second
+		} else if r.Chance(20) {
+			dt += time.Duration(1+r.Intn(3600)) * time.Second
+		}
+	case r.Chance(30):
+		dt = lib.BlockStep
+	default:
+		dt = []time.Duration{time.Hour, 7 * time.Hour, 24 * time.Hour, 3 * 24 * time.Hour, 15 * 24 * time.Hour}[r.Intn(5)]
+	}
+	if dt < lib.BlockStep {
+		dt = lib.BlockStep
+	}
+	h.opEndBlock(dt)
+}
+
+func (h *hist) run(nops int) {
+	r := h.r
+	for i := 0; i < nops && !h.halted; i++ {
+		x := r.Intn(100)
+		nOpen := len(h.openIDs(0))
+		switch {
+		case x < 16 || (nOpen < 2 && x < 40):
+			h.genSubmit()
+		case x < 40:
+			h.genDeposit()
+		case x < 66:
+			h.genVote()
+		case x < 70:
+			h.genCancel()
+		case x < 78:
+			h.genCustom()
+		case x < 80:
+			h.opMint(int64(10+r.Intn(6)), fxAmt(int64(1+r.Intn(1000))))
+		default:
+			h.genEndBlock()
+		}
+	}
+	// drain: let everything still open run to its end
+	for k := 0; k < 4 && !h.halted && len(h.openIDs(0)) > 0; k++ {
+		h.opEndBlock(16 * 24 * time.Hour)
+	}
+}
+
+func (h *hist) paramsCoq() string {
+	p := h.params
+	dest := "DBurn"
+	switch {
+	case p.ProposalCancelDest == "":
+	case p.ProposalCancelDest == authtypes.NewModuleAddress(distrtypes.ModuleName).String():
+		dest = "DPool"
+	default:
+		dest = fmt.Sprintf("(DAcct %d)", h.idOf[p.ProposalCancelDest])
+	}
+	return fmt.Sprintf("(mk_params %s %s %d %d %d %s %s %s %s %s %s %s %s %s %s %s)",
+		zb(p.MinDeposit[0].Amount.BigInt()), zb(p.ExpeditedMinDeposit[0].Amount.BigInt()),
+		int64(p.MaxDepositPeriod.Seconds()), int64(p.VotingPeriod.Seconds()), int64(p.ExpeditedVotingPeriod.Seconds()),
+		zb(decZ(p.Quorum)), zb(decZ(p.Threshold)), zb(decZ(p.ExpeditedThreshold)), zb(decZ(p.VetoThreshold)),
+		zb(decZ(p.MinInitialDepositRatio)), zb(decZ(p.MinDepositRatio)), zb(decZ(p.ProposalCancelRatio)), dest,
+		lib.Bool(p.BurnProposalDepositPrevote), lib.Bool(p.BurnVoteQuorum), lib.Bool(p.BurnVoteVeto))
+}
+
+func (h *hist) caseCoq() string {
+	return fmt.Sprintf("mk_gov_case %s %s %s %s\n   [%s]", lib.Bool(h.fixed), h.paramsCoq(), h.initBals, h.initCust, strings.Join(h.steps, ";\n    "))
+}
+
+// ---------------------------------------------------------------- main
+
+func classOf(i int) string {
+	switch i % 5 {
+	case 0, 1:
+		return "plain"
+	case 2, 3:
+		return "custom"
+	default:
+		return "govsend"
+	}
+}
+
+func main() {
+	seed := lib.Seed()
+	rep := lib.NewReport("C15")
+	rep.Rule = "histories of submit / deposit / vote (plain and weighted, validators and delegators) / cancel / per-type parameter updates / time advancement on the real app with 3 validators (one slashed), 6 user accounts, randomized governance parameters; classes: plain (no per-type configuration), custom (per-type configuration added/changed/removed in between), govsend (proposals that send from the module account may pass); non-trivial = at least two proposals of different message types open at the same time and at least one tallied; distinct by the full operation log"
+
+	mode := os.Getenv("VERIF_MODE")
+	if mode == "replay" {
+		replay()
+		return
+	}
+	n, nops := 60, 45
+	if lib.Tier() == "thorough" {
+		n, nops = 400, 70
+	}
+	if mode == "search" {
+		n, nops = 300, 70
+	}
+	if v := lib.EnvInt("VERIF_N", 0); v > 0 {
+		n = int(v)
+	}
+	var items []string
+	known := map[string]bool{}
+	// the deterministic replays of the documented defects come first
+	for _, h := range scripted(seed) {
+		finish(rep, h, &items, known)
+	}
+	for i := 0; i < n; i++ {
+		h := newHist(seed, i, classOf(i))
+		h.run(nops)
+		finish(rep, h, &items, known)
+	}
+	if mode != "search" {
+		writeCases("Cases_C15.v", items)
+	}
+	checkTypeURLs(rep)
+	rep.Write()
+}
+
+func finish(rep *lib.Report, h *hist, items *[]string, known map[string]bool) {
+	// non-trivial: judged on what happened
+	rep.Case(strings.Join(h.log, "|"), h.stats["tallied"] > 0 && h.maxOpenTypes > 1)
+	for k, v := range h.stats {
+		for i := 0; i < v; i++ {
+			rep.Count(k)
+		}
+	}
+	rep.Count("class=" + h.class)
+	if h.fixed {
+		rep.Count("keyfun=fixed")
+	} else {
+		rep.Count("keyfun=code")
+	}
+	if h.halted {
+		rep.Count("halted")
+	}
+	rep.Sample(map[string]interface{}{"history": h.idx, "class": h.class, "ops": h.log})
+	for _, f := range h.fails {
+		rep.Fail(f)
+	}
+	*items = append(*items, h.caseCoq())
+}
+
+// EqualFold on registered message type URLs coincides with equality (the model's message type ids)
+func checkTypeURLs(rep *lib.Report) {
+	c := lib.NewChain(1, 1, nil)
+	urls := c.App.InterfaceRegistry().ListImplementations(sdk.MsgInterfaceProtoName)
+	seen := map[string]string{}
+	for _, u := range urls {
+		l := strings.ToLower(u)
+		if o, ok := seen[l]; ok && o != u {
+			rep.Fail(lib.Failure{Kind: "harness", What: "two registered message type URLs differ only by case: " + o + " / " + u, Sig: "C15:typeurl-case"})
+		}
+		seen[l] = u
+	}
+	rep.Notes = append(rep.Notes, fmt.Sprintf("%d registered message type URLs, no two equal up to case", len(urls)))
+}
+
+func replay() {
+	path := os.Getenv("VERIF_REPLAY")
+	b, err := os.ReadFile(path)
+	lib.Must(err)
+	var doc struct {
+		Replay struct {
+			Seed    int64  `json:"seed"`
+			History int    `json:"history"`
+			Class   string `json:"class"`
+		} `json:"replay"`
+	}
+	lib.Must(json.Unmarshal(b, &doc))
+	var h *hist
+	if doc.Replay.History < 0 {
+		for _, s := range scripted(doc.Replay.Seed) {
+			if s.idx == doc.Replay.History {
+				h = s
+			}
+		}
+	} else {
+		nops := 45
+		if lib.Tier() == "thorough" {
+			nops = 70
+		}
+		h = newHist(doc.Replay.Seed, doc.Replay.History, doc.Replay.Class)
+		h.run(nops)
+	}
+	if h == nil {
+		fmt.Println("unknown replay")
+		os.Exit(2)
+	}
+	for _, l := range h.log {
+		fmt.Println(l)
+	}
+	for _, f := range h.fails {
+		fmt.Println("MONITOR:", f.Sig, "—", f.What)
+	}
+	if len(h.fails) > 0 {
+		os.Exit(1)
+	}
 }
